@@ -26,7 +26,7 @@ type c17 struct{}
 func init() {
 	register(c17{})
 	expectedProbes["C17"] = []string{"mix:distinct-roots", "mix:own-cache", "mix:shared-hcache", "mix:shared-libcache", "mix:shared-readonly-doc", "mix:first-use", "mix:shared-root-context", "mix:shared-root-and-cache", "lock-contended", "context-switches>10",
-		"policy:random", "policy:pct", "history-checked-linearizable", "schema-id-registered-in-shared-cache", "tasks>=4", "ref-to-built-in-meta-schema", "per-task-documents-at-the-same-urls"}
+		"policy:random", "policy:pct", "history-checked-linearizable", "schema-id-registered-in-shared-cache", "tasks>=4", "ref-to-built-in-meta-schema", "per-task-documents-at-the-same-urls", "debug-trace-on"}
 }
 
 func (c17) ID() string { return "C17" }
@@ -189,6 +189,9 @@ func (c17) Gen(r *sim.RNG, tier string, idx int) *Scenario {
 			}
 		}
 	}
+	if sc.Mix != "first-use" && r.Intn(10) == 0 {
+		sc.Trace = true // the package's debug trace is on (spec.Debug), its output discarded
+	}
 	s := &sim.SchedCfg{Seed: r.Uint64(), MaxDecisions: 20000}
 	if r.Bool(0.6) {
 		s.Mode = "random"
@@ -338,6 +341,10 @@ func (c17) Run(sc *Scenario) *Verdict {
 		return runInFreshProcess(sc)
 	}
 	v.probe("mix:" + sc.Mix)
+	if sc.Trace && spec.VerifTrace(true) {
+		v.probe("debug-trace-on")
+		defer spec.VerifTrace(false)
+	}
 	if b, _ := json.Marshal(w.Docs); strings.Contains(string(b), "json-schema.org/draft-04") || strings.Contains(string(b), "swagger.io/v2") {
 		v.probe("ref-to-built-in-meta-schema")
 	}
